@@ -435,6 +435,7 @@ func GetBase(name string, cfg Config, seed uint32) (*Base, error) {
 // NewSess clones the base image into a fresh session (database not yet opened).
 func (b *Base) NewSess() *Sess {
 	return &Sess{
+		BaseName: b.Name,
 		FS:    b.Image.Clone(),
 		Cfg:   b.Cfg,
 		Model: b.Model.Clone(),
